@@ -91,6 +91,26 @@ impl Ord for K32 {
     }
 }
 
+/// A `Copy` element whose size (3 bytes, alignment 1) is not a power of two: word-at-a-time "fast paths" that
+/// assume the element size divides the word size tear such elements.  Holds a 24-bit origin; ordered like `K32`.
+#[derive(Clone, Copy, PartialEq, Eq, Hash, Debug, Default)]
+pub struct B3(pub [u8; 3]);
+impl B3 {
+    pub fn get(&self) -> u32 {
+        self.0[0] as u32 | (self.0[1] as u32) << 8 | (self.0[2] as u32) << 16
+    }
+}
+impl PartialOrd for B3 {
+    fn partial_cmp(&self, o: &B3) -> Option<Ordering> {
+        Some(self.cmp(o))
+    }
+}
+impl Ord for B3 {
+    fn cmp(&self, o: &B3) -> Ordering {
+        (self.get() % 3).cmp(&(o.get() % 3))
+    }
+}
+
 pub struct Zst;
 impl Zst {
     pub fn new() -> Zst {
@@ -187,6 +207,28 @@ impl CellT for K32 {
     }
     fn origin(&self) -> u32 {
         self.0
+    }
+    fn copy_from_slice_on<R: toodee::CopyOps<Self>>(r: &mut R, src: &[Self]) -> bool {
+        r.copy_from_slice(src);
+        true
+    }
+    fn copy_from_toodee_on<R: toodee::CopyOps<Self>, S: toodee::TooDeeOps<Self>>(r: &mut R, s: &S) -> bool {
+        r.copy_from_toodee(s);
+        true
+    }
+    fn copy_within_on<R: toodee::CopyOps<Self>>(r: &mut R, src: ((usize, usize), (usize, usize)), d: (usize, usize)) -> bool {
+        r.copy_within(src, d);
+        true
+    }
+}
+
+impl CellT for B3 {
+    const KIND: &'static str = "b3";
+    fn make(origin: u32) -> B3 {
+        B3([origin as u8, (origin >> 8) as u8, (origin >> 16) as u8])
+    }
+    fn origin(&self) -> u32 {
+        self.get()
     }
     fn copy_from_slice_on<R: toodee::CopyOps<Self>>(r: &mut R, src: &[Self]) -> bool {
         r.copy_from_slice(src);
